@@ -496,5 +496,5 @@ def apply_strategy(st):
 
 
 def gen_fault(s: Choices):
-    kind = s.weighted([(3, "task_fail_before"), (3, "task_fail_after"), (2, "spawn_fail")])
+    kind = s.weighted([(3, "task_fail_before"), (3, "task_fail_after"), (2, "spawn_fail"), (2, "consumer_interrupt")])
     return {"kind": kind, "k": s.small(9)}
